@@ -271,11 +271,41 @@ pub fn distinct_on_lint(sql: &str, need_sort: bool) -> Option<String> {
                 if norder < nkeys || (need_sort && norder <= nkeys) {
                     return Some(format!("DISTINCT ON ({keys}) block is ordered by `{tail}` only"));
                 }
+                // the DISTINCT ON expressions must be the left-most ORDER BY expressions (in any order)
+                let strip = |e: &str| e.trim().trim_end_matches(" DESC").trim_end_matches(" ASC").trim().to_string();
+                let mut want: Vec<String> = split_top_level(keys).iter().map(|e| strip(e)).collect();
+                let mut lead: Vec<String> = split_top_level(tail).iter().take(nkeys).map(|e| strip(e)).collect();
+                want.sort();
+                lead.sort();
+                if want != lead {
+                    return Some(format!("DISTINCT ON ({keys}) expressions are not the left-most ORDER BY expressions (`{tail}`)"));
+                }
             }
         }
         from = j;
     }
     None
+}
+
+fn split_top_level(s: &str) -> Vec<String> {
+    let (mut depth, mut cur, mut out) = (0i32, String::new(), vec![]);
+    for c in s.chars() {
+        match c {
+            '(' => depth += 1,
+            ')' => depth -= 1,
+            ',' if depth == 0 => {
+                out.push(cur.trim().to_string());
+                cur.clear();
+                continue;
+            }
+            _ => {}
+        }
+        cur.push(c);
+    }
+    if !cur.trim().is_empty() {
+        out.push(cur.trim().to_string());
+    }
+    out
 }
 
 fn top_level_pieces(s: &str) -> usize {
